@@ -142,8 +142,11 @@ fn one_run(shape: &Shape, abandon_us: Option<u64>, obs_label: &mut Vec<&'static 
                 match end {
                     None => vfail!("c12:handler-not-cancelled", "victim abandoned at {:?} us: its handler (started at +{} us) is still running 1 s later", abandon_us, s.t_us - t_start),
                     Some(e) if e.ev == Ev::Finish => {
-                        // finishing is fine only if it finished before the cancellation could reach it
-                        let latest = t_abandon + shape.link_delay_ms as u64 * 1000 + 2_000;
+                        // finishing is fine only if it finished before the cancellation could reach it.
+                        // The cancellation (RESET_STREAM / STOP_SENDING) is ack-eliciting: when the request
+                        // and its sibling have just filled the initial congestion window it is held back
+                        // until the first acknowledgements return (one round trip), then travels one way.
+                        let latest = t_abandon + 3 * shape.link_delay_ms as u64 * 1000 + 2_000;
                         vensure!(e.t_us <= latest, "c12:handler-ran-to-completion", "victim abandoned at +{} us but its handler ran to completion at +{} us", t_abandon - t_start, e.t_us - t_start);
                         handler_end_us = Some(e.t_us - t_start);
                     }
